@@ -62,22 +62,22 @@ func (t *tracer) handler(i int) app.HandlerFunc {
 		switch t.prog[i] {
 		case 1:
 			ctx.Next(c)
-			t.ev = append(t.ev, fmt.Sprintf("A%d", i))
+			t.ev = append(t.ev, fmt.Sprintf("A%d%s", i, abortMark(ctx.IsAborted())))
 		case 2:
 			ctx.Abort()
 		case 3:
 			ctx.Next(c)
-			t.ev = append(t.ev, fmt.Sprintf("A%d", i))
+			t.ev = append(t.ev, fmt.Sprintf("A%d%s", i, abortMark(ctx.IsAborted())))
 			ctx.Abort()
 		case 4:
 			ctx.Abort()
 			ctx.Next(c)
-			t.ev = append(t.ev, fmt.Sprintf("A%d", i))
+			t.ev = append(t.ev, fmt.Sprintf("A%d%s", i, abortMark(ctx.IsAborted())))
 		case 5:
 			ctx.Next(c)
-			t.ev = append(t.ev, fmt.Sprintf("A%d", i))
+			t.ev = append(t.ev, fmt.Sprintf("A%d%s", i, abortMark(ctx.IsAborted())))
 			ctx.Next(c)
-			t.ev = append(t.ev, fmt.Sprintf("B%d", i))
+			t.ev = append(t.ev, fmt.Sprintf("B%d%s", i, abortMark(ctx.IsAborted())))
 		case 6:
 			// every Abort variant must stop the chain the same way
 			switch i % 4 {
@@ -93,6 +93,15 @@ func (t *tracer) handler(i int) app.HandlerFunc {
 		}
 		t.ev = append(t.ev, fmt.Sprintf("X%d", i))
 	}
+}
+
+// abortMark: what IsAborted() says after a Next has returned is part of the trace ("!" =
+// aborted): it is true exactly when some handler has called Abort by then.
+func abortMark(aborted bool) string {
+	if aborted {
+		return "!"
+	}
+	return ""
 }
 
 // ref is the reference interpreter of a chain program.
@@ -113,22 +122,22 @@ func ref(p []int) []string {
 		switch p[i] {
 		case 1:
 			runRest()
-			out = append(out, fmt.Sprintf("A%d", i))
+			out = append(out, fmt.Sprintf("A%d%s", i, abortMark(aborted)))
 		case 2, 6:
 			aborted = true
 		case 3:
 			runRest()
-			out = append(out, fmt.Sprintf("A%d", i))
+			out = append(out, fmt.Sprintf("A%d%s", i, abortMark(aborted)))
 			aborted = true
 		case 4:
 			aborted = true
 			runRest()
-			out = append(out, fmt.Sprintf("A%d", i))
+			out = append(out, fmt.Sprintf("A%d%s", i, abortMark(aborted)))
 		case 5:
 			runRest()
-			out = append(out, fmt.Sprintf("A%d", i))
+			out = append(out, fmt.Sprintf("A%d%s", i, abortMark(aborted)))
 			runRest()
-			out = append(out, fmt.Sprintf("B%d", i))
+			out = append(out, fmt.Sprintf("B%d%s", i, abortMark(aborted)))
 		}
 		out = append(out, fmt.Sprintf("X%d", i))
 	}
